@@ -228,10 +228,6 @@ func (h *Handler) HandleReadFile(ctx *Context, limit uint32, offset uint64, wr s
 		return fmt.Errorf("no file opened")
 	}
 
-	if _, err := ctx.State.ROFile.Seek(int64(offset), io.SeekStart); err != nil {
-		return fmt.Errorf("seek failed: %w", err)
-	}
-
 	// Amount of data must be announced before the data itself. It's taken from file size
 	// instead of buffering the data: client-chosen limit (up to 4GiB) must not drive memory usage.
 	info, err := ctx.State.ROFile.Stat()
@@ -243,7 +239,20 @@ func (h *Handler) HandleReadFile(ctx *Context, limit uint32, offset uint64, wr s
 		return fmt.Errorf("read failed: is a directory")
 	}
 
-	n := min(int64(limit), max(info.Size()-int64(offset), 0))
+	// nothing to read at or after the end: it's an empty answer for every kind of file,
+	// not a failed seek (offset may be not representable as file position at all)
+	if offset >= uint64(info.Size()) {
+		log.DebugContext(ctx, "Read file", slog.Int64("read", 0))
+		wr.WriteHeader(0)
+
+		return nil
+	}
+
+	if _, err := ctx.State.ROFile.Seek(int64(offset), io.SeekStart); err != nil {
+		return fmt.Errorf("seek failed: %w", err)
+	}
+
+	n := min(int64(limit), info.Size()-int64(offset))
 
 	log.DebugContext(ctx, "Read file", slog.Int64("read", n))
 
